@@ -368,15 +368,20 @@ def expected_lines(events, facts, files, programs):
             parties.setdefault(c["name"], []).append(reg)
         if op == "inputObj":
             inputs.setdefault(c["name"], []).append(reg)
-        k = child.get(reg, child.get(str(reg)))
-        if k is not None and k not in seen:
-            # only the first register holding an operation says where it was created (later ones may be aliases:
-            # to_public() of a non-secret, a literal member returned by an accessor, a parameter binding)
-            seen.add(k)
-            src = input_reg_of.get(reg, reg)
-            if src in lm:
-                op_lines[k] = lm[src]
-        reg += len(c["params"]) if op == "beginFn" else 1
+        width = len(c["params"]) if op == "beginFn" else 1
+        for r_ in range(reg, reg + max(width, 1)):
+            # (a function definition binds one register per parameter: each of them is where its parameter was created)
+            k = child.get(r_, child.get(str(r_)))
+            if k is not None and k not in seen:
+                # only the first register holding an operation says where it was created (later ones may be aliases:
+                # to_public() of a non-secret, a literal member returned by an accessor, a parameter binding)
+                seen.add(k)
+                src = input_reg_of.get(r_, r_)
+                if src in lm:
+                    op_lines[k] = lm[src]
+                elif reg in lm:
+                    op_lines[k] = lm[reg]
+        reg += width
     named = {}
     for name, regs in parties.items():
         if len(regs) == 1 and regs[0] in lm:
